@@ -71,7 +71,10 @@ class Ctx:
         return True
 
     # ---- finish --------------------------------------------------------------------------------
-    def finish(self):
+    def finish(self, write=True):
+        if not write:
+            shutil.rmtree(self.work, ignore_errors=True)
+            return 1 if self.violations else 0
         obl = len(self.obligations)
         dis = sum(1 for o in self.obligations if o[1])
         cov = dict(self.coverage)
